@@ -328,6 +328,95 @@ impl TypeInfo for FaultyParent {
     }
 }
 
+/// A composite assembled by hand (not through the typestate builders) whose members are partly named, partly not.
+pub struct MixedFields;
+impl TypeInfo for MixedFields {
+    type Identity = Self;
+    fn type_info() -> Type {
+        use scale_info::{Field, TypeDefComposite};
+        let fields = vec![
+            Field::new(Some("first"), scale_info::meta_type::<u8>(), Some("u8"), vec![]),
+            Field::new(None, scale_info::meta_type::<u16>(), Some("u16"), vec!["an unnamed member between named ones"]),
+            Field::new(Some("third"), scale_info::meta_type::<bool>(), None, vec![]),
+        ];
+        Type::new(Path::new("MixedFields", M), vec![], TypeDefComposite::new(fields), vec![])
+    }
+}
+
+/// The same for a variant's members.
+pub struct MixedVariant;
+impl TypeInfo for MixedVariant {
+    type Identity = Self;
+    fn type_info() -> Type {
+        use scale_info::{Field, TypeDefVariant, Variant};
+        let fields = vec![Field::new(None, scale_info::meta_type::<u32>(), Some("u32"), vec![]), Field::new(Some("named"), scale_info::meta_type::<u8>(), Some("u8"), vec![])];
+        Type::new(Path::new("MixedVariant", M), vec![], TypeDefVariant::new(vec![Variant::new("Only", fields, 7, vec![])]), vec![])
+    }
+}
+
+thread_local! {
+    static NEST_GUARD: std::cell::Cell<bool> = const { std::cell::Cell::new(false) };
+    static NESTED: RefCell<Option<Vec<u8>>> = const { RefCell::new(None) };
+}
+
+/// What a registry of the three roots around `NestOuter` looks like (SCALE bytes), built right here.
+pub fn nest_reference() -> Vec<u8> {
+    use scale::Encode;
+    let was = NEST_GUARD.with(|g| g.replace(true));
+    let mut r = scale_info::Registry::new();
+    r.register_type(&scale_info::meta_type::<NestOuter>());
+    r.register_type(&scale_info::meta_type::<u8>());
+    r.register_type(&scale_info::meta_type::<[u8; 9]>());
+    NEST_GUARD.with(|g| g.set(was));
+    scale_info::PortableRegistry::from(r).encode()
+}
+
+/// The bytes of the registry that `NestInner::type_info()` built *while another registry was evaluating it* (taken once).
+pub fn take_nested() -> Option<Vec<u8>> {
+    NESTED.with(|n| n.borrow_mut().take())
+}
+
+/// A type whose description is computed with the help of a second, private registry (as a `type_info()` that consults
+/// metadata of other types may do): two registries are alive, nested, on one thread.
+pub struct NestInner;
+impl TypeInfo for NestInner {
+    type Identity = Self;
+    fn type_info() -> Type {
+        if !NEST_GUARD.with(|g| g.get()) {
+            let bytes = nest_reference();
+            NESTED.with(|n| *n.borrow_mut() = Some(bytes));
+        }
+        Type::builder().path(Path::new("NestInner", M)).composite(Fields::unnamed().field(|f| f.ty::<u64>().type_name("u64")))
+    }
+}
+
+pub struct NestOuter;
+impl TypeInfo for NestOuter {
+    type Identity = Self;
+    fn type_info() -> Type {
+        Type::builder()
+            .path(Path::new("NestOuter", M))
+            .composite(Fields::named().field(|f| f.ty::<NestInner>().name("inner").type_name("NestInner")).field(|f| f.ty::<[u8; 9]>().name("tail").type_name("[u8; 9]")))
+    }
+}
+
+/// Derived types whose names are not ASCII: the derive hands `module_path!()` and the identifier to `Path::new*`.
+#[allow(non_snake_case)]
+pub mod non_ascii {
+    #[derive(scale_info::TypeInfo)]
+    pub struct Größe;
+    #[derive(scale_info::TypeInfo)]
+    #[scale_info(replace_segment("Maß", "Mass"))]
+    pub struct Maß(pub u8);
+    pub mod ünï {
+        #[derive(scale_info::TypeInfo)]
+        pub struct Plain;
+        #[derive(scale_info::TypeInfo)]
+        #[scale_info(replace_segment("ünï", "uni"))]
+        pub struct Repaired;
+    }
+}
+
 /// A user type that merely shares its *name* with core's marker type: an ordinary one-member struct whose member
 /// is encoded and must be described wherever the type is used as a member. (Sample / Model impls: sample.rs)
 pub mod units {
